@@ -208,6 +208,233 @@ theorem tinact_no_submit_when_nonce_moved (hon cur nsigs nonce cn idx : Nat) (w 
   · exact ⟨rfl, rfl⟩
   · first | exact ⟨rfl, rfl⟩ | simp [h]
 
+/-! ## The monitor accepts every group run of the model -/
+
+theorem relay_member_subs (sf : Bool) (ip : Option Bool) (s T : Nat) (ev : Option Nat)
+    (tie : List Kind) :
+    (relayLoop sf ip (relayOccs s T ev tie) []).1 = [] ∨
+    ((relayLoop sf ip (relayOccs s T ev tie) []).1 = [s] ∧ stopB tie s T ev = false) := by
+  cases ev with
+  | none =>
+    simp only [relayOccs, evOcc, sortOccs, List.append_nil, List.foldr, insertOcc]
+    split
+    · right
+      refine ⟨?_, ?_⟩
+      · cases sf <;> rcases ip with _ | _ | _ <;> simp [relayLoop]
+      · simp only [stopB, evStop, before, Bool.or_eq_true, Bool.and_eq_true, decide_eq_true_eq,
+          Bool.or_false, Bool.or_eq_false_iff, Bool.and_eq_false_iff, decide_eq_false_iff_not] at *
+        omega
+    · left; simp [relayLoop]
+  | some e =>
+    simp only [relayOccs, evOcc, sortOccs, List.foldr, insertOcc, List.cons_append, List.nil_append]
+    split <;> simp only [insertOcc] <;> split <;> (try split) <;>
+      first
+      | (left; cases sf <;> rcases ip with _ | _ | _ <;> simp [relayLoop]; done)
+      | (right
+         refine ⟨?_, ?_⟩
+         · cases sf <;> rcases ip with _ | _ | _ <;> simp [relayLoop]
+         · simp only [stopB, evStop, before, Bool.or_eq_true, Bool.and_eq_true, decide_eq_true_eq,
+             Bool.or_eq_false_iff, Bool.and_eq_false_iff, decide_eq_false_iff_not] at *
+           omega)
+
+theorem members_nodup_map (n : Nat) (f : Nat → Nat)
+    (hinj : ∀ i j, 1 ≤ i → i ≤ n → 1 ≤ j → j ≤ n → f i = f j → i = j) :
+    ((members n).map f).Nodup := by
+  unfold members
+  rw [List.Nodup, List.pairwise_map]
+  have h := List.nodup_range' (s := 1) (n := n) (step := 1)
+  refine List.Pairwise.imp_of_mem ?_ h
+  intro a b ha hb hab hf
+  rw [List.mem_range'_1] at ha hb
+  exact hab (hinj a b (by omega) (by omega) (by omega) (by omega) hf)
+
+theorem mem_members {n i : Nat} : i ∈ members n ↔ 1 ≤ i ∧ i ≤ n := by
+  unfold members; rw [List.mem_range'_1]; omega
+
+/-- monitor soundness, relay entry: the monitor accepts every group run of the model — all group
+    sizes, steps, entries, start blocks, competing events, tie orders and chain failures. -/
+theorem relay_holds_model (n step entry start : Nat) (ev : Option Nat) (tie : List Kind)
+    (sf : Bool) (ip : Option Bool) (hs : 0 < step) :
+    holds (relayRule n step start ev tie) (relayGroup n step entry start ev tie sf ip) = true := by
+  unfold holds
+  rw [Bool.and_eq_true]
+  constructor
+  · rw [decide_eq_true_eq]
+    have : (relayGroup n step entry start ev tie sf ip).filterMap (·.await) =
+        (members n).map (fun idx => start + relayOffset idx n entry step) := by
+      unfold relayGroup
+      rw [List.filterMap_map]
+      induction members n with
+      | nil => rfl
+      | cons a l ih => simp [relayMember, ih]
+    rw [this]
+    apply members_nodup_map
+    intro i j hi1 hin hj1 hjn h
+    exact relay_slots_injective (entry := entry) hi1 hin hj1 hjn hs (by omega)
+  · rw [List.all_eq_true]
+    intro m hm
+    unfold relayGroup at hm
+    obtain ⟨idx, hidx, rfl⟩ := List.mem_map.1 hm
+    obtain ⟨h1, hn⟩ := mem_members.1 hidx
+    have hlt := relay_slots_before_timeout (idx := idx) (n := n) (entry := entry) h1 hn hs
+    have hsub := relay_member_subs sf ip (start + relayOffset idx n entry step) (start + n * step) ev tie
+    simp only [relayMember, relayRule] at *
+    rcases hsub with h | ⟨h, hst⟩
+    · simp [h, hlt]
+    · simp [h, hlt, hst]
+
+theorem bdkg_member_subs (s : Nat) (ev : Option Nat) (tie : List Kind) :
+    (bdkgLoop (sortOccs tie ([(s, Kind.slot)] ++ evOcc ev))).1 = [] ∨
+    ((bdkgLoop (sortOccs tie ([(s, Kind.slot)] ++ evOcc ev))).1 = [s] ∧ evStop tie s ev = false) := by
+  cases ev with
+  | none => right; exact ⟨rfl, rfl⟩
+  | some e =>
+    simp only [evOcc, sortOccs, List.foldr, insertOcc, List.cons_append, List.nil_append]
+    split
+    · right
+      refine ⟨rfl, ?_⟩
+      simp only [evStop, before, Bool.or_eq_true, Bool.and_eq_true, decide_eq_true_eq,
+        Bool.or_eq_false_iff, Bool.and_eq_false_iff, decide_eq_false_iff_not] at *
+      omega
+    · left; rfl
+
+/-- generic: a group whose members all skipped the wait satisfies any rule -/
+theorem holds_all_skipped (r : Rule) (ms : List Mem) (h : ∀ m ∈ ms, m.await = none ∧ m.subs = []) :
+    holds r ms = true := by
+  unfold holds
+  rw [Bool.and_eq_true]
+  constructor
+  · rw [decide_eq_true_eq]
+    have : ms.filterMap (·.await) = [] := by
+      induction ms with
+      | nil => rfl
+      | cons a l ih =>
+        have ha := (h a (by simp)).1
+        simp [List.filterMap_cons, ha, ih (fun m hm => h m (by simp [hm]))]
+    rw [this]; exact List.nodup_nil
+  · rw [List.all_eq_true]
+    intro m hm
+    obtain ⟨h1, h2⟩ := h m hm
+    simp [h1, h2]
+
+theorem bdkg_holds_model (n honest step start nsigs : Nat) (reg : Option Bool) (ev : Option Nat)
+    (tie : List Kind) (hs : 0 < step) :
+    holds (bdkgRule start reg ev tie) (bdkgGroup n honest step start nsigs reg ev tie) = true := by
+  by_cases hsig : nsigs < honest + (n - honest) / 2
+  · apply holds_all_skipped
+    intro m hm
+    obtain ⟨idx, -, rfl⟩ := List.mem_map.1 hm
+    simp [bdkgMember, hsig]
+  · rcases reg with _ | _ | _
+    · apply holds_all_skipped
+      intro m hm
+      obtain ⟨idx, -, rfl⟩ := List.mem_map.1 hm
+      simp [bdkgMember, hsig]
+    · -- not yet registered: everybody waits for its slot
+      unfold holds
+      rw [Bool.and_eq_true]
+      constructor
+      · rw [decide_eq_true_eq]
+        have : (bdkgGroup n honest step start nsigs (some false) ev tie).filterMap (·.await) =
+            (members n).map (fun idx => start + stepOffset idx step) := by
+          unfold bdkgGroup
+          rw [List.filterMap_map]
+          induction members n with
+          | nil => rfl
+          | cons a l ih => simp [bdkgMember, hsig, ih]
+        rw [this]
+        apply members_nodup_map
+        intro i j hi1 _ hj1 _ h
+        exact step_slots_injective hi1 hj1 hs (by omega)
+      · rw [List.all_eq_true]
+        intro m hm
+        obtain ⟨idx, hidx, rfl⟩ := List.mem_map.1 hm
+        have hsub := bdkg_member_subs (start + stepOffset idx step) ev tie
+        simp only [List.cons_append, List.nil_append] at hsub
+        simp only [bdkgMember, hsig, if_false, bdkgRule, List.cons_append, List.nil_append]
+        rcases hsub with h | ⟨h, hst⟩
+        · simp [h]
+        · simp only [evStop] at hst
+          simp [h]
+          exact hst
+    · apply holds_all_skipped
+      intro m hm
+      obtain ⟨idx, -, rfl⟩ := List.mem_map.1 hm
+      simp [bdkgMember, hsig]
+
+theorem tbtc_tail_group_holds (stepBlocks cur : Nat) (w : Wait) (n : Nat) (hs : 0 < stepBlocks)
+    (ms : List Mem) (hms : ms = (members n).map (tbtcTail stepBlocks cur w)) :
+    holds (tbtcRule cur false w) ms = true := by
+  subst hms
+  unfold holds
+  rw [Bool.and_eq_true]
+  constructor
+  · rw [decide_eq_true_eq]
+    have : ((members n).map (tbtcTail stepBlocks cur w)).filterMap (·.await) =
+        (members n).map (fun idx => cur + stepOffset idx stepBlocks) := by
+      rw [List.filterMap_map]
+      induction members n with
+      | nil => rfl
+      | cons a l ih => cases w <;> simp_all [tbtcTail]
+    rw [this]
+    apply members_nodup_map
+    intro i j hi1 _ hj1 _ h
+    exact step_slots_injective hi1 hj1 hs (by omega)
+  · rw [List.all_eq_true]
+    intro m hm
+    obtain ⟨idx, -, rfl⟩ := List.mem_map.1 hm
+    cases w <;> simp [tbtcTail, tbtcRule]
+
+theorem tdkg_holds_model (n quorum cur nsigs : Nat) (state : Option Nat) (w : Wait) :
+    holds (tdkgRule cur state w) (tdkgGroup n quorum cur nsigs state w) = true := by
+  by_cases hsig : nsigs < quorum
+  · apply holds_all_skipped
+    intro m hm
+    obtain ⟨idx, -, rfl⟩ := List.mem_map.1 hm
+    simp [tdkgMember, hsig]
+  · cases state with
+    | none =>
+      apply holds_all_skipped
+      intro m hm
+      obtain ⟨idx, -, rfl⟩ := List.mem_map.1 hm
+      simp [tdkgMember, hsig]
+    | some st =>
+      by_cases hst : st = Gen.C47.awaitingResultState
+      · subst hst
+        have : tdkgRule cur (some Gen.C47.awaitingResultState) w = tbtcRule cur false w := by
+          simp [tdkgRule]
+        rw [this]
+        apply tbtc_tail_group_holds Gen.C47.tbtcDkgSubmissionStep cur w n tbtc_steps_pos.1
+        unfold tdkgGroup
+        apply List.map_congr_left
+        intro idx _
+        simp [tdkgMember, hsig]
+      · apply holds_all_skipped
+        intro m hm
+        obtain ⟨idx, -, rfl⟩ := List.mem_map.1 hm
+        simp [tdkgMember, hsig, hst]
+
+theorem tinact_holds_model (n honest cur nsigs nonce cn : Nat) (w : Wait) :
+    holds (tinactRule cur nonce cn w) (tinactGroup n honest cur nsigs nonce cn w) = true := by
+  by_cases hsig : nsigs < honest
+  · apply holds_all_skipped
+    intro m hm
+    obtain ⟨idx, -, rfl⟩ := List.mem_map.1 hm
+    simp [tinactMember, hsig]
+  · by_cases hn : cn > nonce
+    · apply holds_all_skipped
+      intro m hm
+      obtain ⟨idx, -, rfl⟩ := List.mem_map.1 hm
+      simp [tinactMember, hsig, hn]
+    · have : tinactRule cur nonce cn w = tbtcRule cur false w := by
+        simp [tinactRule, hn]
+      rw [this]
+      apply tbtc_tail_group_holds Gen.C47.tbtcInactivityStep cur w n tbtc_steps_pos.2.1
+      unfold tinactGroup
+      apply List.map_congr_left
+      intro idx _
+      simp [tinactMember, hsig, hn]
+
 /-! ## Non-vacuity / monitor examples -/
 
 example : (relayGroup 3 3 9 100 none [.slot, .event, .timeout] false (some true)).map (·.await)
